@@ -318,4 +318,165 @@ theorem run_mono (nb : Nat → Nat → Option Nat) (nroots rank : Nat) :
       exact ih _ _ x' (succNode_mono nb nroots k h) hr
     · cases hr
 
+/-! ## the even-length variant -/
+
+theorem lookup_filterMap {α β : Type} [BEq α] [LawfulBEq α] (f : α → Option β) (l : List α) (q : α) :
+    (l.filterMap fun p => (f p).map fun t => (p, t)).lookup q = if q ∈ l then f q else none := by
+  induction l with
+  | nil => simp
+  | cons a l ih =>
+    rw [List.filterMap_cons]
+    cases hfa : f a with
+    | none =>
+      simp only [Option.map_none, ih, List.mem_cons]
+      by_cases hq : q = a
+      · subst hq; simp [hfa]
+      · simp [hq]
+    | some t =>
+      simp only [Option.map_some, List.lookup_cons, ih, List.mem_cons]
+      by_cases hq : q = a
+      · subst hq; simp [hfa]
+      · have : (q == a) = false := by simpa using hq
+        simp [this, hq]
+
+theorem mem_of_lookup_some {α β : Type} [BEq α] [LawfulBEq α] {l : List (α × β)} {a : α} {b : β}
+    (h : l.lookup a = some b) : (a, b) ∈ l := by
+  induction l with
+  | nil => simp at h
+  | cons x xs ih =>
+    obtain ⟨a', b'⟩ := x
+    rw [List.lookup_cons] at h
+    by_cases e : a = a'
+    · subst e; simp at h; simp [h]
+    · have : (a == a') = false := by simpa using e
+      simp only [this] at h
+      exact List.mem_cons_of_mem _ (ih h)
+
+theorem mem_allPairs (rank : Nat) (p : Nat × Nat) : p ∈ allPairs rank ↔ p.1 < rank ∧ p.2 < rank := by
+  unfold allPairs
+  simp only [List.mem_flatMap, List.mem_range, List.mem_map]
+  constructor
+  · rintro ⟨a, ha, b, hb, rfl⟩; exact ⟨ha, hb⟩
+  · intro ⟨h1, h2⟩; exact ⟨p.1, h1, p.2, h2, rfl⟩
+
+theorem step_none_of_ge (A : Table) (rank : Nat) (hA : ∀ row ∈ A, row.length ≤ rank) (s k : Nat)
+    (hk : rank ≤ k) : A.step s k = none := by
+  unfold Table.step
+  cases hs : A[s]? with
+  | none => rfl
+  | some row =>
+    have : row ∈ A := List.mem_of_getElem? hs
+    have hl := hA row this
+    simp [List.getElem?_eq_none (by omega : row.length ≤ k)]
+
+theorem edgesOf_lookup (A : Table) (rank : Nat) (hA : ∀ row ∈ A, row.length ≤ rank) (v : Nat)
+    (p : Nat × Nat) : (edgesOf A rank v).lookup p = A.step2 v p := by
+  unfold edgesOf
+  rw [lookup_filterMap]
+  split
+  · rfl
+  · rename_i h
+    rw [mem_allPairs] at h
+    unfold Table.step2
+    by_cases h1 : p.1 < rank
+    · have h2 : rank ≤ p.2 := by
+        rcases Nat.lt_or_ge p.2 rank with h' | h'
+        · exact absurd ⟨h1, h'⟩ h
+        · exact h'
+      cases hs : A.step v p.1 with
+      | none => rfl
+      | some t => simp [step_none_of_ge A rank hA t p.2 h2]
+    · rw [step_none_of_ge A rank hA v p.1 (by omega)]; rfl
+
+/-- loop invariant of `automaton_multiple` -/
+structure EInv (A : Table) (rank : Nat) (queue visited : List Nat) (acc : EvenG) : Prop where
+  look : ∀ v, acc.lookup v = if v ∈ visited then some (edgesOf A rank v) else none
+  closed : ∀ v ∈ visited, ∀ p t, A.step2 v p = some t → t ∈ visited ∨ t ∈ queue
+  start : 0 ∈ visited ∨ 0 ∈ queue
+
+theorem evenBfs_spec (A : Table) (rank : Nat) (hA : ∀ row ∈ A, row.length ≤ rank) :
+    ∀ (fuel : Nat) (queue visited : List Nat) (acc E : EvenG),
+      evenBfs A rank fuel queue visited acc = some E → EInv A rank queue visited acc →
+        ∃ vis, EInv A rank [] vis E := by
+  intro fuel
+  induction fuel with
+  | zero =>
+    intro queue visited acc E h hI
+    cases queue with
+    | nil => simp only [evenBfs, Option.some.injEq] at h; subst h; exact ⟨visited, hI⟩
+    | cons v q => simp [evenBfs] at h
+  | succ fuel ih =>
+    intro queue visited acc E h hI
+    cases queue with
+    | nil => simp only [evenBfs, Option.some.injEq] at h; subst h; exact ⟨visited, hI⟩
+    | cons v q =>
+      simp only [evenBfs] at h
+      split at h
+      · rename_i hv
+        have hv' : v ∈ visited := by simpa using hv
+        refine ih q visited acc E h ⟨hI.look, ?_, ?_⟩
+        · intro u hu p t hp
+          rcases hI.closed u hu p t hp with h1 | h1
+          · exact Or.inl h1
+          · rcases List.mem_cons.1 h1 with rfl | h2
+            · exact Or.inl hv'
+            · exact Or.inr h2
+        · rcases hI.start with h1 | h1
+          · exact Or.inl h1
+          · rcases List.mem_cons.1 h1 with h2 | h2
+            · exact Or.inl (h2 ▸ hv')
+            · exact Or.inr h2
+      · rename_i hv
+        have hv' : v ∉ visited := by simpa using hv
+        refine ih _ _ _ E h ⟨?_, ?_, ?_⟩
+        · intro u
+          rw [List.lookup_append, hI.look u]
+          by_cases hu : u = v
+          · subst hu
+            simp only [hv', if_false, List.mem_cons, true_or, if_true, Option.none_or]
+            simp [List.lookup, edgesOf, allPairs]
+          · have : (u == v) = false := by simpa using hu
+            by_cases hm : u ∈ visited
+            · simp [hm, hu]
+            · simp [hm, hu, List.lookup, this]
+        · intro u hu p t hp
+          rcases List.mem_cons.1 hu with rfl | hu
+          · -- the new vertex: its targets were enqueued
+            right
+            apply List.mem_append_right
+            have : (edgesOf A rank u).lookup p = some t := by rw [edgesOf_lookup A rank hA, hp]
+            have hmem : (p, t) ∈ edgesOf A rank u := mem_of_lookup_some this
+            exact List.mem_map.2 ⟨(p, t), by simpa [edgesOf, allPairs] using hmem, rfl⟩
+          · rcases hI.closed u hu p t hp with h1 | h1
+            · exact Or.inl (List.mem_cons_of_mem _ h1)
+            · rcases List.mem_cons.1 h1 with rfl | h2
+              · exact Or.inl (List.mem_cons_self)
+              · exact Or.inr (List.mem_append_left _ h2)
+        · rcases hI.start with h1 | h1
+          · exact Or.inl (List.mem_cons_of_mem _ h1)
+          · rcases List.mem_cons.1 h1 with h2 | h2
+            · exact Or.inl (h2 ▸ List.mem_cons_self)
+            · exact Or.inr (List.mem_append_left _ h2)
+
+theorem even_follow (A : Table) (rank : Nat) (hA : ∀ row ∈ A, row.length ≤ rank) (vis : List Nat)
+    (E : EvenG) (hI : EInv A rank [] vis E) :
+    ∀ (ps : List (Nat × Nat)) (v : Nat), v ∈ vis → E.follow v ps = follow2 A v ps := by
+  intro ps
+  induction ps with
+  | nil => intro v _; rfl
+  | cons p ps ih =>
+    intro v hv
+    have hstep : E.step v p = A.step2 v p := by
+      unfold EvenG.step
+      rw [hI.look v, if_pos hv]
+      exact edgesOf_lookup A rank hA v p
+    simp only [EvenG.follow, follow2, hstep]
+    cases hs : A.step2 v p with
+    | none => rfl
+    | some t =>
+      simp only [Option.bind_some]
+      rcases hI.closed v hv p t hs with h | h
+      · exact ih t h
+      · cases h
+
 end GT.CoxAut
